@@ -19,6 +19,10 @@ class Mismatch(Exception):
     pass
 
 
+class BudgetExhausted(Exception):
+    """The search for a correspondence was cut off (highly symmetric circuits): inconclusive, not a mismatch."""
+
+
 def is_composite(obj) -> bool:
     return hasattr(obj, "get_sub_composite_operations")
 
@@ -61,11 +65,12 @@ def _sig_equal(a, b) -> bool:
     return a[0] == b[0] and a[1] == b[1] and close(a[2], b[2]) and a[3] == b[3] and a[4] == b[4]
 
 
-def match(mc: M.MCirc, comp, g, dreg, budget: int = 20000) -> Dict[int, Any]:
+def match(mc: M.MCirc, comp, g, dreg, budget: int = 100000) -> Dict[int, Any]:
     """Return {id(model node): library object} for every node below `mc` (recursively).
     The model must have explicit relations set; implicit ones are validated against `M.candidates` and then FIXED in
     the model to the candidate the implementation reports (node.ref / rel_type / depth are assigned here)."""
     mapping: Dict[int, Any] = {}
+    rev: Dict[int, M.Node] = {}        # id(library object) -> model node, for objects matched so far
     steps = [0]
 
     def rel_of(obj):
@@ -87,7 +92,7 @@ def match(mc: M.MCirc, comp, g, dreg, budget: int = 20000) -> Dict[int, Any]:
         def assign(i: int) -> bool:
             steps[0] += 1
             if steps[0] > budget:
-                raise Mismatch("matching budget exhausted")
+                raise BudgetExhausted()
             if i == len(mc.nodes):
                 return True
             n = mc.nodes[i]
@@ -105,7 +110,11 @@ def match(mc: M.MCirc, comp, g, dreg, budget: int = 20000) -> Dict[int, Any]:
                 inside = ref is not None and id(ref) in child_ids
                 if n.multi is not None:
                     if n.multi:
-                        if not inside or rtype != "FOLLOWED_BY" or not any(mapping.get(id(c)) is ref for c in n.multi):
+                        # which of several equally late leaves carries the next copy is not specified: accept any
+                        # item of an earlier copy of this circuit; the start time is compared separately
+                        src = rev.get(id(ref)) if inside else None
+                        if (src is None or mapping.get(id(src)) is not ref or rtype != "FOLLOWED_BY"
+                                or src.circ is not n.circ or src.copy_index >= n.copy_index):
                             continue
                     elif inside:
                         continue
@@ -129,6 +138,7 @@ def match(mc: M.MCirc, comp, g, dreg, budget: int = 20000) -> Dict[int, Any]:
                 saved = dict(mapping) if n.is_sub else None
                 used[id(o)] = True
                 mapping[id(n)] = o
+                rev[id(o)] = n
                 ok = True
                 if n.is_sub:
                     try:
